@@ -280,6 +280,7 @@ func (p *Parser) ParseFile(filename string) (*Dictionary, error) {
 }
 
 func parseOID(s string) OID {
+	const maxInt = int(^uint(0) >> 1)
 	var o OID
 	for i, ch := range s {
 		switch ch {
@@ -291,6 +292,9 @@ func parseOID(s string) OID {
 		case '0', '1', '2', '3', '4', '5', '6', '7', '8', '9':
 			if i == 0 {
 				o = append(o, 0)
+			}
+			if o[len(o)-1] > (maxInt-int(ch-'0'))/10 {
+				return nil // the component does not fit in an int
 			}
 			o[len(o)-1] *= 10
 			o[len(o)-1] += int(ch - '0')
